@@ -689,6 +689,10 @@ func (p *parser) readEqToken(token []byte) {
 
 func (p *parser) readEqList() (list []any) {
 	p.pos++
+	if p.nextNonSpace() == ']' { // an empty list
+		p.pos++
+		return []any{}
+	}
 List:
 	for p.pos < len(p.buf) {
 		eq := p.readEq()
